@@ -1,1 +1,1 @@
-
+import Props.C18
